@@ -17,15 +17,23 @@ PROP = {
             "under d equal those under the defaults; bodies of raw blocks that contain tokens are compared modulo re-spelling; the "
             "strings {{ }} {% %} placed in text survive verbatim under fully custom d.",
     "trusted_base": COMMON_TB + ["the harness's own spell/unspell/Clean (harness/tokitems.go) define which sources count as 'the same template'"],
-    "assumptions": ["Clean(d, items): every occurrence of a delimiter of d in the spelled source lies inside a delimiter that spell "
+    "assumptions": ["harness Clean(d, items) (harness/tokitems.go, decides which templates the delims stream keeps): every "
+                    "occurrence of a delimiter of d in the spelled source lies inside a delimiter that spell "
                     "wrote; arguments are non-empty for objects, do not begin or end with white space or '-', and a tag's arguments "
                     "do not END in a proper prefix of the tag-right delimiter (with the defaults: `{% assign x = y %%}` is not a tag "
                     "either - the argument pattern consumes `%` only together with the byte after it)",
-                    "delimiters are ASCII punctuation"],
+                    "Lean Clean d items (Proofs/E2ESpell.lean, hypothesis of the theorems) is a different predicate, narrower where "
+                    "it matters: texts are non-empty, not adjacent, and no opening delimiter begins inside a text; the closing "
+                    "delimiter is the first one after its opening; arguments do not begin with white space and do not end with "
+                    "white space or '-'; a tag's arguments do not end in a non-empty prefix of the tag-right delimiter; a tag "
+                    "WITHOUT arguments has at most one white-space byte before its closing delimiter and none before a right trim "
+                    "marker (`{% endif -%}` is outside); the equivalence theorems need it for both delimiter sets",
+                    "delimiters are ASCII punctuation (Lean GoodDelims: not '-' or '_', no length bound, only the two opening "
+                    "delimiters mutually non-prefixing; harness GoodDelims: lengths 1..4, all four mutually non-prefixing)"],
 }
 
 TEXT = {
-    "text": ('Main theorem, over ALL templates and ALL good delimiter sets (Proofs.C19E2E): a template is a list of abstract items '
+    "text": ('Main theorem, over ALL good delimiter sets and ALL item lists that are Clean for them (Proofs.C19E2E): a template is a list of abstract items '
               '(text / object / tag with hyphens and inner white space, Proofs.E2ESpell), `spell d items` writes it with the '
               'delimiters d and `tokensOf d items line` is the token list it denotes. For every delimiter quadruple satisfying '
               'GoodDelims (non-empty strings of ASCII punctuation other than - and _, neither opening delimiter a prefix of the '
@@ -33,15 +41,18 @@ TEXT = {
               'leftmost-first backtracking matcher with its lazy loops, hyphen detection, line counting - returns exactly '
               '`tokensOf d items line` on `spell d items` (scan_spell; by induction over the matcher: objRe_m, tagRe_m, '
               'lazyUnits, scanLoop_spell). Hence the token lists of two spellings are equal up to the source field of tag and '
-              'object tokens (tokens_equal_up_to_source), and, because the block parser and the compiler do not read that '
+              'object tokens, for an item list that is Clean for BOTH delimiter sets (tokens_equal_up_to_source), and, because the block parser and the compiler do not read that '
               'field outside raw blocks (parseTokens_unsrc, compileList_unsrc), for templates without a tag named raw the '
               'compiled templates are EQUAL (spellings_compile_equal), so `run` of an engine with custom delimiters on the '
               'custom spelling is the run of the template compiled from the default spelling (run_custom_spelling_eq_default). '
               'Raw blocks are excluded because the equivalence is false there (a raw body is emitted as spelled; counterexample '
-              'recorded). Clean also excludes three real quirks of the token pattern, each recorded as an evaluated example: '
-              '`{% else  %}` has arguments " ", `{% else -%}` has arguments "-" AND a right trim marker, `{% if x%%}` is text. '
-              'Further theorems: Delims("","","","") selects the defaults, position by position; a list that is not four entries selects '
-              'the defaults; the delimiters used are never empty (delims_*); a trim marker is emitted exactly when the byte next '
+              'recorded). Clean also excludes three real behaviours of the token pattern, each recorded as an evaluated example: '
+              '`{% else  %}` has arguments " ", `{% else -%}` has arguments "-" AND a right trim marker, `{% if x%%}` is text - '
+              'so every argument-less tag with white space before a right trim marker (`{% endif -%}`, `{% endfor -%}`) or with '
+              'more than one blank before its closing delimiter is outside the theorem. '
+              'Further theorems: Delims("","","","") selects the defaults (delims_all_empty), position by position '
+              '(delims_default_per_position); a list that is not four entries selects the defaults (delims_wrong_arity); the '
+              'delimiters used are never empty (delims_nonempty); a trim marker is emitted exactly when the byte next '
               "to the configured delimiter is a hyphen, relative to that delimiter's length (hyphen_detection_obj/tag); the C05 "
               'partition and line theorems hold for every delimiter list (custom_delims_partition); a source containing none of '
               'the configured opening delimiters is one text token, so default-delimiter tags are ordinary text under custom '
@@ -51,7 +62,16 @@ TEXT = {
     "design_ref": 'DESIGN.md 6 C19',
     "note": NOTE + ('The equivalence theorem excludes templates with a tag named raw (false when the raw body contains objects or '
               'tags; true but not proved when it contains only text) and is stated for compilation and for `run` with the same '
-              'engine configuration on both sides (included files are read with the engine\'s own delimiters).'),
+              'engine configuration on both sides (included files are read with the engine\'s own delimiters). It needs Clean for '
+              'BOTH delimiter sets (the custom ones and the defaults). The Lean Clean (Proofs/E2ESpell.lean: CleanItem, CleanClose, '
+              'CleanText) is not the harness Clean of harness/tokitems.go and neither contains the other: the Lean one admits '
+              'more delimiter occurrences (only an opening delimiter inside a text and a closing delimiter before its own position '
+              'are excluded) and a leading - in arguments after white space, but in addition requires non-empty, '
+              'non-adjacent texts and, for a tag WITHOUT arguments, at most one white-space byte before the closing delimiter and '
+              'none before a right trim marker - so `{% endif -%}` / `{% else -%}` with a blank before the hyphen are outside the '
+              'theorem (the hyphen is read as arguments "-" AND as a trim marker; the delims stream, whose Clean has no such '
+              'condition, may generate such tags: they are then covered by the stream, not by the theorem); GoodDelims in Lean excludes '
+              '- and _ and bounds no length, the harness GoodDelims requires lengths 1..4 and all four strings mutually non-prefixing.'),
     "technique": ('Lean 4 proof (induction over the backtracking matcher on the token pattern, for all good delimiter sets; tokenizer '
               'lemmas generic in the delimiter list) + model/implementation correspondence + metamorphic '
               'oracle (custom vs default spelling)'),
